@@ -212,6 +212,10 @@ fn readers(s: &str) -> Vec<(&'static str, R)> {
 }
 
 pub fn check_string(s: &str, st: &mut Stats, mode: Count) {
+    netted(st, || json!({"kind": "string", "text": s, "hex": hex(s.as_bytes())}), s.len(), |st| check_string_inner(s, st, mode));
+}
+
+fn check_string_inner(s: &str, st: &mut Stats, mode: Count) {
     st.eval();
     let case = || json!({"kind": "string", "text": s, "hex": hex(s.as_bytes())});
     let parsed = match guard(|| s.parse::<LanguageIdentifier>()) {
@@ -311,6 +315,10 @@ pub fn check_string(s: &str, st: &mut Stats, mode: Count) {
 }
 
 pub fn check_value(li: &LanguageIdentifier, case: &Value, st: &mut Stats, mode: Count) {
+    netted(st, || case.clone(), 10, |st| check_value_inner(li, case, st, mode));
+}
+
+fn check_value_inner(li: &LanguageIdentifier, case: &Value, st: &mut Stats, mode: Count) {
     st.eval();
     let size = values::case_size(case);
     let canon = model::canon_langid(&{
@@ -466,6 +474,10 @@ fn s_doc() -> proptest::strategy::SBoxedStrategy<Value> {
 }
 
 pub fn check_doc(doc: &Value, st: &mut Stats, mode: Count) {
+    netted(st, || json!({"kind": "doc", "json": doc.to_string()}), doc.to_string().len(), |st| check_doc_inner(doc, st, mode));
+}
+
+fn check_doc_inner(doc: &Value, st: &mut Stats, mode: Count) {
     st.eval();
     if doc.is_string() {
         st.class("doc:top-level-string (skipped here, covered by the string clause)");
